@@ -42,6 +42,7 @@ def related(P, u, i):
 
 def h(cfg):
     P, w, tasks = setup(cfg)
+    cfg = P.cfg
     sch, exc = run_calc(P, w)
     if exc is not None:
         check(True, 'C08 (not schedulable: ' + type(exc).__name__ + ')')
